@@ -33,13 +33,23 @@ LoggedOb(W) ==
   [n2o |-> FromPairs(W.n2o), o2n |-> FromPairs(W.o2n), i2o |-> FromPairs(W.i2o), o2i |-> FromPairs(W.o2i),
    e2o |-> FromPairs(W.e2o), o2e |-> FromPairs(W.o2e), j2o |-> FromPairs(W.j2o), o2j |-> FromPairs(W.o2j)]
 
+\* P = a projection record (of the active side, or the light one of the other side)
+OutFrom(P)  == [n \in {P.nt[i].n : i \in DOMAIN P.nt} |-> FromPairs(P.nt[CHOOSE i \in DOMAIN P.nt : P.nt[i].n = n].om)]
+InFrom(P)   == [n \in {P.nt[i].n : i \in DOMAIN P.nt} |-> FromPairs(P.nt[CHOOSE i \in DOMAIN P.nt : P.nt[i].n = n].im)]
+EdgeFrom(P) == [e \in {P.et[i][1] : i \in DOMAIN P.et} |->
+                 LET r == P.et[CHOOSE i \in DOMAIN P.et : P.et[i][1] = e] IN <<r[2], r[3]>>]
+ObsFrom(P)  == [k \in {P.obs[i].k : i \in DOMAIN P.obs} |-> LoggedOb(P.obs[CHOOSE i \in DOMAIN P.obs : P.obs[i].k = k])]
+
 Views ==
-  /\ outT' = [n \in {S.nt[i].n : i \in DOMAIN S.nt} |-> FromPairs(S.nt[CHOOSE i \in DOMAIN S.nt : S.nt[i].n = n].om)]
-  /\ inT'  = [n \in {S.nt[i].n : i \in DOMAIN S.nt} |-> FromPairs(S.nt[CHOOSE i \in DOMAIN S.nt : S.nt[i].n = n].im)]
-  /\ edgeT' = [e \in {S.et[i][1] : i \in DOMAIN S.et} |->
-                 LET r == S.et[CHOOSE i \in DOMAIN S.et : S.et[i][1] = e] IN <<r[2], r[3]>>]
+  /\ outT' = OutFrom(S)
+  /\ inT'  = InFrom(S)
+  /\ edgeT' = EdgeFrom(S)
   /\ dirT' = S.dir
-  /\ ob' = [k \in {S.obs[i].k : i \in DOMAIN S.obs} |-> LoggedOb(S.obs[CHOOSE i \in DOMAIN S.obs : S.obs[i].k = k])]
+  /\ ob' = ObsFrom(S)
+  /\ parkedNow' = IF S.oth.has
+                   THEN [has |-> TRUE, outT |-> OutFrom(S.oth), inT |-> InFrom(S.oth), edgeT |-> EdgeFrom(S.oth),
+                         dirT |-> S.oth.dir, ob |-> ObsFrom(S.oth)]
+                   ELSE NoSide
   /\ view' = S
   /\ out' = Ev.r
 
@@ -55,22 +65,23 @@ Ret == Ev.ret
 
 \* ---------------------------------------------------------------- events
 TReset ==
-  /\ IsEvent("Reset") /\ Views
+  /\ IsEvent("Reset") /\ ~Ev.load /\ Views
   /\ directed' = (A(1) = 1) /\ nodes' = {} /\ edges' = NoMap /\ nextN' = 0 /\ nextE' = 0
   /\ legal' = (Ev.r = "ok")
   /\ alive' = {1} /\ rf' = [j \in {1} |-> EmptyRf]
+  /\ parked' = NoSide
 
-\* Load: the scenario continues from a state that an earlier, validated
+\* Reset with load = TRUE: the scenario continues from a state that an earlier, validated
 \* scenario reached (breadth-first enumeration); the history that rebuilt it
 \* ran silently.  The reference is read off the logged views, which the
 \* invariants then check for internal agreement like any other state.
 LooseOf(o2x, x2o) == {o \in DOMAIN o2x : o \notin Rng(x2o)}
 TLoad ==
-  /\ IsEvent("Load") /\ Views
+  /\ IsEvent("Reset") /\ Ev.load /\ Views
   /\ directed' = dirT' /\ nodes' = DOMAIN outT' /\ edges' = edgeT'
   /\ nextN' = Ev.hw[1] /\ nextE' = Ev.hw[2]
   /\ legal' = (Ev.r = "ok")
-  /\ alive' = DOMAIN ob'
+  /\ alive' = DOMAIN ob' /\ parked' = NoSide
   /\ rf' = [k \in DOMAIN ob' |->
              [nObj |-> ob'[k].n2o, nIdx |-> ob'[k].o2i, eObj |-> ob'[k].e2o, eIdx |-> ob'[k].o2j,
               looseN |-> LooseOf(ob'[k].o2i, ob'[k].n2o), looseE |-> LooseOf(ob'[k].o2j, ob'[k].e2o)]]
@@ -123,17 +134,59 @@ TSetEdgeLinking ==
   /\ IsEvent("SetEdgeLinking") /\ Views
   /\ LET tgt == IF Ev.k \in DOMAIN ob' /\ A(3) \in DOMAIN ob'[Ev.k].o2e THEN ob'[Ev.k].o2e[A(3)] ELSE -1
      IN O(ESetEdgeLinking(Rk, A(1), A(2), A(3), tgt, KeepE(OldE(tgt))))
-TCopy == IsEvent("Copy") /\ Views /\ RefCopy
+TCopy == IsEvent("Copy") /\ Views /\ RefCopy               \* copy constructor
+TCopyConv == IsEvent("CopyConv") /\ Views /\ RefCopy       \* converting copy constructor (there and back)
 TDrop == IsEvent("Drop") /\ Views /\ RefDrop
+TAssign == IsEvent("Assign") /\ Views /\ RefAssign(A(1), A(2))
+TAttach == IsEvent("Attach") /\ Views /\ RefAttach
+TClone == IsEvent("Clone") /\ Views /\ RefClone
+TSwap == IsEvent("Swap") /\ Views /\ RefSwap
+TDropClone == IsEvent("DropClone") /\ Views /\ RefDropClone
+TAssignAcross == IsEvent("AssignAcross") /\ Views /\ RefAssignAcross(A(1))
+
+\* RaiseBatch (enumeration): a run of calls that all raised, logged as one event with the maps
+\* read after the last of them.  Every one of them must be a call that may raise in this state,
+\* and - like after any raise - nothing may have changed.
+RkOf(k) == IF k \in alive THEN rf[k] ELSE EmptyRf
+MayRaise(op) ==
+  LET nm == op[1]  k == op[2]  a == op[3]  R == RkOf(op[2]) IN
+  CASE nm = "GCreateNode"         -> ECreateNode(nextN).mayRaise
+    [] nm = "GCreateNodeFromNode" -> ECreateNodeFromNode(a[1], nextN, nextE).mayRaise
+    [] nm = "GCreateNodeOnEdge"   -> ECreateNodeOnEdge(a[1], nextN, nextE, nextE + 1).mayRaise
+    [] nm = "GCreateNodeFromEdge" -> ECreateNodeFromEdge(a[1], nextN, nextN + 1, nextE, nextE + 1, nextE + 2).mayRaise
+    [] nm = "GLink"               -> ELink(a[1], a[2], nextE).mayRaise
+    [] nm = "GUnlink"             -> EUnlink(a[1], a[2], {}).mayRaise
+    [] nm = "GDeleteNode"         -> EDeleteNode(a[1]).mayRaise
+    [] nm = "GMakeDirected"       -> EMakeDirected.mayRaise
+    [] nm = "GMakeUndirected"     -> EMakeUndirected.mayRaise
+    [] nm = "OCreateNode"         -> EOCreateNode(R, a[1], nextN).g.mayRaise
+    [] nm = "OCreateNodeFrom"     -> EOCreateNodeFrom(R, a[1], a[2], a[3], nextN, nextE).g.mayRaise
+    [] nm = "OLink"               -> EOLink(R, a[1], a[2], a[3], nextE).g.mayRaise
+    [] nm = "OUnlink"             -> EOUnlink(R, a[1], a[2]).g.mayRaise
+    [] nm = "ODeleteNode"         -> EODeleteNode(R, a[1]).g.mayRaise
+    [] nm = "AssocNode"           -> EAssocNode(R, a[1], a[2], TRUE).g.mayRaise
+    [] nm = "AssocEdge"           -> EAssocEdge(R, a[1], a[2], TRUE).g.mayRaise
+    [] nm = "DissocNode"          -> EDissocNode(R, a[1], TRUE).g.mayRaise
+    [] nm = "DissocEdge"          -> EDissocEdge(R, a[1], TRUE).g.mayRaise
+    [] nm = "SetNodeIndex"        -> ESetNodeIndex(R, a[1], a[2], a[2]).g.mayRaise
+    [] nm = "SetEdgeIndex"        -> ESetEdgeIndex(R, a[1], a[2], a[2]).g.mayRaise
+    [] nm = "AddNodeIndex"        -> EAddNodeIndex(R, a[1], 0).g.mayRaise
+    [] nm = "AddEdgeIndex"        -> EAddEdgeIndex(R, a[1], 0).g.mayRaise
+    [] OTHER                      -> FALSE
+TRaiseBatch ==
+  /\ IsEvent("RaiseBatch") /\ Views
+  /\ legal' = (Ev.r = "raise" /\ \A i \in DOMAIN Ev.ops : MayRaise(Ev.ops[i]))
+  /\ UNCHANGED <<refvars, alive, rf, parked>>
 
 TraceNext ==
+  \/ TRaiseBatch
   \/ TReset \/ TLoad
   \/ TGCreateNode \/ TGCreateNodeFromNode \/ TGCreateNodeOnEdge \/ TGCreateNodeFromEdge
   \/ TGLink \/ TGUnlink \/ TGDeleteNode \/ TGMakeDirected \/ TGMakeUndirected
   \/ TOCreateNode \/ TOCreateNodeFrom \/ TOLink \/ TOUnlink \/ TODeleteNode
   \/ TAssocNode \/ TAssocEdge \/ TDissocNode \/ TDissocEdge
   \/ TSetNodeIndex \/ TSetEdgeIndex \/ TAddNodeIndex \/ TAddEdgeIndex \/ TSetEdgeLinking
-  \/ TCopy \/ TDrop
+  \/ TCopy \/ TCopyConv \/ TDrop \/ TAssign \/ TAttach \/ TClone \/ TSwap \/ TDropClone \/ TAssignAcross
 
 TraceInit == ObsInit(TRUE) /\ view = [none |-> TRUE] /\ l = 1
 TraceSpec == TraceInit /\ [][TraceNext]_tvars
@@ -157,7 +210,16 @@ ViewLists ==
     /\ StrictlySorted(V.ite)
     /\ V.ne = Cardinality(DOMAIN edges)
     /\ Set(V.lv) \subseteq nodes /\ V.lvs = V.lv
-    /\ \A n \in nodes : ~HasLoop(n) => ((n \in Set(V.lv)) <=> IsLeaf(n))
+    /\ \A n \in nodes : (n \in Set(V.lv)) <=> IsLeaf(n)
+    \* getAllInnerNodes: "degree > 1" says the documentation, "has an outgoing neighbour" does the code;
+    \* asserted where both readings agree
+    /\ Set(V.inner) \subseteq nodes
+    /\ \A n \in nodes : ~HasLoop(n) =>
+         /\ (NOut(n) # {} /\ Degree(n) > 1) => n \in Set(V.inner)
+         /\ (NOut(n) = {} /\ Degree(n) <= 1) => n \notin Set(V.inner)
+    \* getLeavesFromNode(n, d): the leaves within d steps of n (n itself when it is a leaf)
+    /\ (\A n \in nodes : ~HasLoop(n)) =>
+         \A i \in DOMAIN V.lf : LET r == V.lf[i] IN r[1] \in nodes => Set(r[3]) = LeavesFrom(r[1], r[2])
 
 \* per node: neighbour, edge, degree, leaf queries and the four iterators (twice: const and not)
 ViewNodeTable ==
@@ -173,7 +235,11 @@ ViewNodeTable ==
            /\ r.con = r.on /\ r.cin = r.in /\ r.coe = r.oe /\ r.cie = r.ie
            /\ r.no = Cardinality(NOut(n)) /\ r.ni = Cardinality(NIn(n))
            /\ r.nnb \in {Cardinality(Nbrs(n)), Len(r.nb)}      \* "number of neighbours": distinct ones, or one per listed entry (2b)
-           /\ ~HasLoop(n) => (r.deg = Degree(n) /\ r.leaf = IsLeaf(n))
+           /\ r.leaf = IsLeaf(n)                                  \* a looped node is its own neighbour (as getNeighbors lists it)
+           /\ ~HasLoop(n) => r.deg = Degree(n)
+           \* with a self-loop the documentation ("number of neighbours") does not say how the loop
+           \* counts (the code: 2 when directed, 1 when undirected); only agreement with the list query is asserted
+           /\ HasLoop(n) => r.deg = (IF directed THEN Len(r.nb) ELSE Len(r.nb) \div 2)
 
 \* getEdge(a,b) / getAnyEdge(a,b) on every ordered pair (one absent id included): -2 = raised
 ViewPairs ==
@@ -191,6 +257,14 @@ EObjsOf(R, Es) == {R.eObj[e] : e \in Es \cap DOMAIN R.eObj}
 ObjOrNone(R, n) == IF n \in DOMAIN R.nObj THEN R.nObj[n] ELSE None
 EObjOrNone(R, e) == IF e \in DOMAIN R.eObj THEN R.eObj[e] ELSE None
 
+\* an index-valued list query over the objects Os: their indices, or - when one of them has no index - a raise (<<-2>>)
+IdxListOk(R, lst, Os) ==
+  IF lst = <<-2>> THEN \E o \in Os : o \notin DOMAIN R.nIdx
+  ELSE (Os \subseteq DOMAIN R.nIdx) /\ Set(lst) = {R.nIdx[o] : o \in Os}
+EIdxListOk(R, lst, Os) ==
+  IF lst = <<-2>> THEN \E o \in Os : o \notin DOMAIN R.eIdx
+  ELSE (Os \subseteq DOMAIN R.eIdx) /\ Set(lst) = {R.eIdx[o] : o \in Os}
+
 \* the observer's object-level queries: items without an object are skipped
 ViewObs ==
   Seen =>
@@ -204,12 +278,26 @@ ViewObs ==
            /\ Set(W.alle) = Rng(R.eObj) /\ W.ite = W.alle /\ W.itec = W.alle
            /\ W.ne = Cardinality(Rng(R.eObj))
            /\ Set(W.lv) \subseteq Rng(R.nObj)
-           /\ \A n \in DOMAIN R.nObj \cap nodes : ~HasLoop(n) => ((R.nObj[n] \in Set(W.lv)) <=> IsLeaf(n))
+           /\ \A n \in DOMAIN R.nObj \cap nodes : (R.nObj[n] \in Set(W.lv)) <=> IsLeaf(n)
            /\ W.nl = Len(W.lv)
-           /\ IF W.idxs = <<-2>> THEN \E o \in Rng(R.nObj) : o \notin DOMAIN R.nIdx
-              ELSE Set(W.idxs) = {R.nIdx[o] : o \in Rng(R.nObj) \cap DOMAIN R.nIdx}
-           /\ IF W.eidxs = <<-2>> THEN \E o \in Rng(R.eObj) : o \notin DOMAIN R.eIdx
-              ELSE Set(W.eidxs) = {R.eIdx[o] : o \in Rng(R.eObj) \cap DOMAIN R.eIdx}
+           /\ Set(W.inner) = ObjsOf(R, Set(V.inner))               \* the observer's inner nodes are the graph's
+           /\ IdxListOk(R, W.lvidx, Set(W.lv)) /\ IdxListOk(R, W.inneridx, Set(W.inner))
+           /\ (\A n \in nodes : ~HasLoop(n)) =>
+                \A j \in DOMAIN W.lf : LET r == W.lf[j]  n == NodeOf(R, r[1]) IN
+                                          n \in nodes => Set(r[3]) = ObjsOf(R, LeavesFrom(n, r[2]))
+           \* the list queries by node index: the indices of what the object-level query lists
+           /\ {W.ix[j].i : j \in DOMAIN W.ix} = {R.nIdx[o] : o \in Rng(R.nObj) \cap DOMAIN R.nIdx}
+           /\ \A j \in DOMAIN W.ix :
+                LET r == W.ix[j]
+                    o == IF r.i \in Rng(R.nIdx) THEN Inv(R.nIdx)[r.i] ELSE None
+                    n == NodeOf(R, o) IN
+                n \in nodes =>
+                  /\ IdxListOk(R, r.nb, ObjsOf(R, Nbrs(n))) /\ IdxListOk(R, r.on, ObjsOf(R, NOut(n)))
+                  /\ IdxListOk(R, r.in, ObjsOf(R, NIn(n)))
+                  /\ EIdxListOk(R, r.ed, EObjsOf(R, EAll(n))) /\ EIdxListOk(R, r.oe, EObjsOf(R, EOut(n)))
+                  /\ EIdxListOk(R, r.ie, EObjsOf(R, EIn(n)))
+                  /\ r.leaf = IsLeaf(n)
+           /\ IdxListOk(R, W.idxs, Rng(R.nObj)) /\ EIdxListOk(R, W.eidxs, Rng(R.eObj))
            /\ {W.nt[j].o : j \in DOMAIN W.nt} = Rng(R.nObj)
            /\ \A j \in DOMAIN W.nt :
                 LET r == W.nt[j]  n == NodeOf(R, r.o) IN
@@ -218,7 +306,8 @@ ViewObs ==
                   /\ Set(r.oe) = EObjsOf(R, EOut(n)) /\ Set(r.ie) = EObjsOf(R, EIn(n)) /\ Set(r.ed) = EObjsOf(R, EAll(n))
                   /\ r.ion = r.on /\ r.iin = r.in /\ r.ioe = r.oe /\ r.iie = r.ie
                   /\ r.con = r.on /\ r.cin = r.in /\ r.coe = r.oe /\ r.cie = r.ie
-                  /\ ~HasLoop(n) => (r.deg = Degree(n) /\ r.leaf = IsLeaf(n))
+                  /\ r.leaf = IsLeaf(n)
+                  /\ ~HasLoop(n) => r.deg = Degree(n)
 
 \* end points of every association and the edge linking two associated nodes
 AssocEndpoints ==
